@@ -174,3 +174,221 @@ theorem execAlu_establishes (w : Array (Option K)) (k : AluKind) (a b : Nat) (c 
           he _ _ (getW_slot hcv), setW_get hset, he _ _ (getW_slot hacc), rfl⟩
 
 end P3R.C02
+
+namespace P3R.C02
+open P3R
+
+variable {K : Type} [Field K] [DecidableEq K]
+
+private theorem bind_ok'' {ε α β} {x : Except ε α} {f : α → Except ε β} {b : β}
+    (h : x >>= f = .ok b) : ∃ a, x = .ok a ∧ f a = .ok b := by
+  cases x with
+  | error e => cases h
+  | ok a => exact ⟨a, rfl, h⟩
+
+/-- A fold of `setW`s only extends the table. -/
+theorem foldlM_setW_ext {α : Type} (f : α → Nat) (g : α → K) :
+    ∀ (l : List α) (w w' : Array (Option K)),
+      l.foldlM (fun w x => setW w (f x) (g x)) w = .ok w' → Ext w w' := by
+  intro l
+  induction l with
+  | nil => intro w w' h; simp [List.foldlM] at h; cases h; exact Ext.refl w
+  | cons x xs ih =>
+    intro w w' h
+    simp only [List.foldlM_cons] at h
+    obtain ⟨w1, h1, h2⟩ := bind_ok'' h
+    exact (setW_ext h1).trans (ih w1 w' h2)
+
+theorem execHintBits_ext (canon : K → Nat) (w w' : Array (Option K)) (ins outs : List Nat)
+    (h : execHintBits canon w ins outs = .ok w') : Ext w w' := by
+  unfold execHintBits at h
+  split at h
+  · obtain ⟨xv, _, h⟩ := bind_ok'' h
+    exact foldlM_setW_ext (fun (oi : Nat × Nat) => oi.1)
+      (fun oi => if (canon xv >>> oi.2) % 2 = 1 then (1 : K) else 0) _ w w' h
+  · cases h
+
+theorem execHintExt_ext (w w' : Array (Option K)) (ins outs : List Nat)
+    (h : execHintExt w ins outs = .ok w') : Ext w w' := by
+  unfold execHintExt at h
+  split at h
+  · obtain ⟨xv, _, h⟩ := bind_ok'' h
+    exact setW_ext h
+  · cases h
+
+/-- One step of `execute_all` extends the table and establishes the executed op's relation. -/
+theorem execOp_establishes (canon : K → Nat) (s s' : RState K) (op : Op K)
+    (h : execOp canon s op = .ok s') : Ext s.w s'.w ∧ holdsOn s'.w op := by
+  unfold execOp at h
+  cases op with
+  | const out v =>
+    simp only at h
+    obtain ⟨w1, hset, h⟩ := bind_ok'' h
+    cases h
+    exact ⟨setW_ext hset, setW_get hset⟩
+  | pub out pos =>
+    simp only at h
+    split at h
+    · cases h; exact ⟨Ext.refl _, trivial⟩
+    · cases h
+  | alu k a b c out io =>
+    simp only at h
+    obtain ⟨⟨w1, r⟩, hex, h⟩ := bind_ok'' h
+    cases h
+    exact execAlu_establishes s.w k a b c out io w1 r hex
+  | hint ins outs kd =>
+    cases kd with
+    | hintBits =>
+      simp only at h
+      obtain ⟨w1, hh, h⟩ := bind_ok'' h
+      cases h
+      exact ⟨execHintBits_ext canon _ _ _ _ hh, trivial⟩
+    | hintExt =>
+      simp only at h
+      obtain ⟨w1, hh, h⟩ := bind_ok'' h
+      cases h
+      exact ⟨execHintExt_ext _ _ _ _ hh, trivial⟩
+    | table _ => simp at h
+  | npo _ _ _ _ => simp at h
+
+/-- After `execute_all`, every executed op's relation holds on the final table. -/
+theorem execAll_establishes (canon : K → Nat) :
+    ∀ (ops : List (Op K)) (s s' : RState K), ops.foldlM (execOp canon) s = .ok s' →
+      Ext s.w s'.w ∧ ∀ op ∈ ops, holdsOn s'.w op := by
+  intro ops
+  induction ops with
+  | nil => intro s s' h; simp [List.foldlM] at h; cases h; exact ⟨Ext.refl _, fun _ h => by cases h⟩
+  | cons op ops ih =>
+    intro s s' h
+    simp only [List.foldlM_cons] at h
+    obtain ⟨s1, h1, h2⟩ := bind_ok'' h
+    obtain ⟨e1, ho⟩ := execOp_establishes canon s s1 op h1
+    obtain ⟨e2, hall⟩ := ih s1 s' h2
+    refine ⟨e1.trans e2, fun o hm => ?_⟩
+    rcases List.mem_cons.mp hm with rfl | hm'
+    · exact holdsOn_mono e2 _ ho
+    · exact hall o hm'
+
+/-- Relation on a *total* assignment read off a fully set table. -/
+theorem holdsOn_total (w : Array (Option K)) (v pub : Nat → K)
+    (hv : ∀ j x, slot w j = some x → v j = x) (op : Op K)
+    (hnp : ∀ out pos, op ≠ .pub out pos) (h : holdsOn w op)
+    (hbool : ∀ a b c out io, op = .alu .boolCheck a b c out io → v a * (v a - 1) = 0)
+    (hwf : ∀ a b c out io, op = .alu .horner a b c out io → c.isSome ∧ io.isSome) :
+    op.holds v pub := by
+  cases op with
+  | const out val => simp only [holdsOn] at h; simp [Op.holds, hv _ _ h]
+  | pub out pos => exact absurd rfl (hnp out pos)
+  | hint _ _ _ => trivial
+  | npo _ _ _ _ => trivial
+  | alu k a b c out io =>
+    cases k with
+    | add =>
+      obtain ⟨x, y, z, h1, h2, h3, h4⟩ := h
+      simp [Op.holds, hv _ _ h1, hv _ _ h2, hv _ _ h3, h4]
+    | mul =>
+      obtain ⟨x, y, z, h1, h2, h3, h4⟩ := h
+      simp [Op.holds, hv _ _ h1, hv _ _ h2, hv _ _ h3, h4]
+    | boolCheck => exact hbool a b c out io rfl
+    | mulAdd =>
+      cases c with
+      | none =>
+        obtain ⟨x, y, z, h1, h2, h3, h4⟩ := h
+        simp [Op.holds, hv _ _ h1, hv _ _ h2, hv _ _ h3, h4]
+      | some cv =>
+        obtain ⟨x, y, u, z, h1, h2, h3, h4, h5⟩ := h
+        simp [Op.holds, hv _ _ h1, hv _ _ h2, hv _ _ h3, hv _ _ h4, h5]
+    | horner =>
+      obtain ⟨hc, hi⟩ := hwf a b c out io rfl
+      cases c with
+      | none => simp at hc
+      | some cv =>
+        cases io with
+        | none => simp at hi
+        | some acc =>
+          obtain ⟨x, y, u, z, q, h1, h2, h3, h4, h5, h6⟩ := h
+          simp [Op.holds, hv _ _ h1, hv _ _ h2, hv _ _ h3, hv _ _ h4, hv _ _ h5, h6]
+
+/-- The rewrite post-pass (conditional `setW`s) only extends the table. -/
+theorem postpass_ext (g : Nat → Nat) :
+    ∀ (l : List (Nat × Nat)) (wa w3 : Array (Option K)),
+      l.foldlM (fun w (dc : Nat × Nat) =>
+        match slot w (g dc.2) with
+        | some v => setW w dc.1 v
+        | none => pure w) wa = .ok w3 → Ext wa w3 := by
+  intro l
+  induction l with
+  | nil => intro wa w3 hp; simp [List.foldlM] at hp; cases hp; exact Ext.refl _
+  | cons dc rest ih =>
+    intro wa w3 hp
+    simp only [List.foldlM_cons] at hp
+    obtain ⟨w1, h1, h2⟩ := bind_ok'' hp
+    have e1 : Ext wa w1 := by
+      split at h1
+      · exact setW_ext h1
+      · cases h1; exact Ext.refl _
+    exact e1.trans (ih w1 w3 h2)
+
+/-- Reading every slot with `mapM`: position `j` of the result is the value of the `j`-th index. -/
+theorem mapM_slot_getD (w : Array (Option K)) :
+    ∀ (idx : List Nat) (vals : List K),
+      idx.mapM (fun i => match slot w i with
+        | some v => (pure v : Except RunErr K)
+        | none => .error (.notSetForIndex i)) = .ok vals →
+      ∀ j, j < idx.length → slot w (idx.getD j 0) = some (vals.toArray.getD j 0) := by
+  intro idx
+  induction idx with
+  | nil => intro vals _ j hj; simp at hj
+  | cons i rest ih =>
+    intro vals h j hj
+    rw [List.mapM_cons] at h
+    obtain ⟨v, hv, h⟩ := bind_ok'' h
+    obtain ⟨vs, hvs, h⟩ := bind_ok'' h
+    cases h
+    cases j with
+    | zero =>
+      split at hv
+      · rename_i x hx; cases hv; simpa using hx
+      · cases hv
+    | succ j =>
+      have := ih vs hvs j (by simpa using hj)
+      simpa using this
+
+
+/-- **C02 / run soundness.** If `run` (from any prepared table) succeeds, the returned witness
+satisfies the relation of every `Const` and ALU op of the circuit, *except that booleanity of
+a `BoolCheck` operand is not tested by the runner* (it is the table row that rejects such a
+trace — the "cannot be proven" clause of C02); hints impose no relation. -/
+theorem run_ok_sat (canon : K → Nat) (c : Circuit K) (w0 : Array (Option K)) (t : Traces K)
+    (h : runFrom canon c w0 = .ok t) (pub : Nat → K)
+    (hwf : ∀ op ∈ c.ops.toList, ∀ a b cc out io, op = .alu .horner a b cc out io → cc.isSome ∧ io.isSome) :
+    ∃ w3 : Array (Option K), (∀ j x, slot w3 j = some x → t.witness.getD j 0 = x) ∧
+      ∀ op ∈ c.ops.toList, (∀ out pos, op ≠ .pub out pos) →
+        (∀ a b cc out io, op = .alu .boolCheck a b cc out io →
+          t.witness.getD a 0 * (t.witness.getD a 0 - 1) = 0) →
+        op.holds (fun j => t.witness.getD j 0) pub := by
+  unfold runFrom at h
+  obtain ⟨s, hexec, h⟩ := bind_ok'' h
+  obtain ⟨w3, hpost, h⟩ := bind_ok'' h
+  obtain ⟨vals, hvals, h⟩ := bind_ok'' h
+  cases h
+  obtain ⟨_, hall⟩ := execAll_establishes canon c.ops.toList _ s hexec
+  have hext : Ext s.w w3 :=
+    postpass_ext (fun d => resolve c.rewrite d) c.rewrite s.w w3 hpost
+  -- every slot of w3 is set and `vals` lists the values
+  have hv : ∀ j x, slot w3 j = some x → vals.toArray.getD j 0 = x := by
+    intro j x hj
+    have hjlt : j < w3.size := by
+      unfold slot at hj
+      by_contra hge
+      have : w3[j]? = none := Array.getElem?_eq_none (by omega)
+      simp [this] at hj
+    have := mapM_slot_getD w3 (List.range w3.size) vals hvals j (by simpa using hjlt)
+    have hr : (List.range w3.size).getD j 0 = j := by
+      simp [List.getD, List.getElem?_range hjlt]
+    rw [hr, hj] at this
+    exact (Option.some.inj this).symm
+  refine ⟨w3, hv, fun op hop hnp hbool => ?_⟩
+  exact holdsOn_total w3 _ pub hv op hnp (holdsOn_mono hext op (hall op hop)) hbool (hwf op hop)
+
+end P3R.C02
